@@ -6,6 +6,10 @@ ALL = ["C%02d" % i for i in range(1, 21)]
 
 CODEC_NOTE = "Trusted: the reflection bridge (identity-checked on every case), the schema universe and alphabets, the reference codecs, the Go toolchain. Schemas enter as the generator's intermediate JSON (the Java parser is absent). Small-scope bounds: depth <= 2 (3 on spines), <= 5 entries, strings <= 2 chars over the metacharacter set + tokens."
 CHECKS = {
+ "C06": dict(engine="enumx", category="model_checking", design="§3 C06",
+   technique="bounded-exhaustive enumeration of deletion / null subsets of record-field positions x key orders x injected unknown fields x 4 reader kinds on generated bindings, against an independently computed missing-path set",
+   text="For every schema with nested records (records inside arrays, maps, unions, includes; plus flat representatives) the fully populated value is encoded by the reference encoders with every subset of field positions removed (all 2^n for n<=8, every subset of size<=3 beyond; deeper in thorough), also as JSON null, in three key orders and with unknown primitive/object/array fields at three positions, then decoded by the JSON, ROR2, query-parameter and untyped-value readers of both generations. The single MissingRequiredFieldsError must list exactly the sorted full paths of the absent required fields, nothing when none is missing, and the returned value must hold every present field; malformed leaves must raise a DeserializationError scoped at the leaf.",
+   note=CODEC_NOTE + " The lenient-client clause is covered at wire level."),
  "C13": dict(engine="enumx", category="model_checking", design="§3 C13",
    technique="bounded-exhaustive enumeration of (default-bearing schema, subset of defaulted positions supplied/omitted, reader) on bindings generated at check time; oracle = reference parse of the schema literal; in-place mutation aliasing check over all maker pairs",
    text="A dedicated universe declares 63 (field type, default literal) pairs (extremes, escapes, empty and nested containers, records with own defaults, every union member and enum symbol, fixed, typerefs) directly, in nested required records, in included records, two include levels deep and only-in-include; for every record every subset of defaulted positions is supplied or omitted in reference documents read by the JSON, ROR2 and untyped readers of both generations and by the generated constructor, and every ordered pair of independently obtained instances is checked for shared default storage.",
